@@ -16,8 +16,9 @@ SPEC = {
         'emits the source line only when it is non-empty (truthiness, as the interpreter prints nothing for missing source); '
         '_DeferredLine.__str__ validates the linecache entry (checkcache) before reading the line on every path, as the '
         'traceback module does. Not decided: the line-scanner state machine of from_string, TracebackInfo/ExceptionInfo '
-        'against live frames.'),
-    'decided': ['frame-line skeleton agreement writer vs regex', 'header and exception-line separator agreement',
+        'against live frames.'
+        ' T12.groups: the named groups of the frame patterns accept any text (lineno: digits), decided on the regex AST over a probe alphabet. T7.discard: the trailing-noise discard is guarded by both a prefix and a suffix test on every way to reach it (DNF). T25.globals: both Callpoint constructors pass the frame globals to _DeferredLine.'),
+    'decided': ['frame-pattern group classes', 'discard guard strength', 'sibling constructors pass globals', 'frame-line skeleton agreement writer vs regex', 'header and exception-line separator agreement',
                 'frame keys produced vs consumed', 'source line guarded by truthiness', 'checkcache before getline'],
     'declined': ['from_string scanner over optional lines', 'agreement with the traceback module on live exceptions'],
     'trusted_base': ['re._parser', 'string.Formatter field parsing'], 'assumptions': [], 'exhaustive': True,
